@@ -51,14 +51,14 @@ type RawFile struct {
 }
 
 type LoadCase struct {
-	Kind       string              `json:"kind"` // "load"
-	ID         int                 `json:"id"`
-	Corruption string              `json:"corruption"`
-	Files      []RawFile           `json:"files"`
-	OK         bool                `json:"ok"`
-	Err        string              `json:"err,omitempty"`
-	Defs       map[string]OutPDef  `json:"defs,omitempty"`
-	Monitor    []string            `json:"monitor"` // failures of the property evaluated directly on the result
+	Kind       string             `json:"kind"` // "load"
+	ID         int                `json:"id"`
+	Corruption string             `json:"corruption"`
+	Files      []RawFile          `json:"files"`
+	OK         bool               `json:"ok"`
+	Err        string             `json:"err,omitempty"`
+	Defs       map[string]OutPDef `json:"defs,omitempty"`
+	Monitor    []string           `json:"monitor"` // failures of the property evaluated directly on the result
 }
 
 type OutTask struct {
